@@ -1,5 +1,5 @@
 use num::bigint::Sign;
-use num::{Signed, Zero};
+use num::{Signed, ToPrimitive, Zero};
 use syntree::node::Children;
 use syntree::{Node, Span};
 
@@ -152,8 +152,13 @@ fn pow(span: Span<u32>, base: Numeric, pow: Numeric) -> Result<Numeric> {
         return Err(Error::new(span, IllegalPowerNonInteger));
     }
 
+    let unit = match pow.value.numer().to_i32() {
+        Some(power) => base.unit.pow(power),
+        None => return Err(Error::new(span, IllegalPowerNonInteger)),
+    };
+
     if pow.value.is_zero() {
-        return Ok(Numeric::new(Rational::new(1, 1), base.unit));
+        return Ok(Numeric::new(Rational::new(1, 1), unit));
     }
 
     if base.value.is_zero() {
@@ -161,7 +166,7 @@ fn pow(span: Span<u32>, base: Numeric, pow: Numeric) -> Result<Numeric> {
             return Err(Error::new(span, DivideByZero));
         }
 
-        return Ok(Numeric::new(base.value, base.unit));
+        return Ok(Numeric::new(base.value, unit));
     }
 
     let mut value = Rational::new(1, 1);
@@ -178,7 +183,7 @@ fn pow(span: Span<u32>, base: Numeric, pow: Numeric) -> Result<Numeric> {
         pow -= &sign;
     }
 
-    Ok(Numeric::new(value, base.unit))
+    Ok(Numeric::new(value, unit))
 }
 
 /// Parse a unit.
